@@ -37,7 +37,7 @@ struct Tot {
 
 fn explore_stop(rep: &mut Reporter, tot: &mut Tot, scn: &Scn, cap_override: Option<usize>, bound: usize, label: &str, expected_output: Option<&[u8]>) {
     let cfg = scenario::config(scn);
-    let base = Policy { prefix: vec![], max_steps: 30_000, yield_on_unbounded_send: false, cap_override };
+    let base = Policy { prefix: vec![], max_steps: 30_000, yield_on_unbounded_send: false, cap_override, descending: false };
     let mut problems: Vec<(String, String, Vec<usize>)> = Vec::new();
     let mut run = |prefix: &[usize]| {
         let (r, o) = scenario::run(scn, cfg, policy_for(prefix, &base));
@@ -129,6 +129,169 @@ fn closure_run(args: &[String], input: &[u8], n: Option<usize>) -> (fp_harness::
         run = run.close_stdout_after(n);
     }
     (run.run(), scratch)
+}
+
+// ------------------------------------------------------------------ real OS signals on the real binary
+
+struct SigOutcome {
+    status: Option<i32>,
+    killed_by: Option<i32>,
+    timed_out: bool,
+    stderr: String,
+    stdout: String,
+}
+
+/// Runs the CLI with `input` on a pipe that stays open, waits until `stop_marker` shows up on stderr (or, without a
+/// marker, `delay_ms`), sends `signals` (one every 150 ms), closes stdin 300 ms after the last one and waits.
+fn signal_run(args: &[String], input: &[u8], stop_marker: Option<&str>, delay_ms: u64, signals: &[i32]) -> SigOutcome {
+    use std::io::{Read, Write};
+    use std::os::unix::process::ExitStatusExt;
+    use std::process::{Command, Stdio};
+    use std::time::{Duration, Instant};
+    let scratch = Scratch::new("c17sig");
+    let mut child = Command::new(fp_harness::cli::cli_bin())
+        .args(args)
+        .current_dir(&scratch.path)
+        .env("RUST_BACKTRACE", "0")
+        .stdin(Stdio::piped())
+        .stdout(Stdio::piped())
+        .stderr(Stdio::piped())
+        .spawn()
+        .expect("spawn fastpasta");
+    let mut stdin = child.stdin.take().unwrap();
+    let mut so = child.stdout.take().unwrap();
+    let mut se = child.stderr.take().unwrap();
+    let errbuf = Arc::new(std::sync::Mutex::new(Vec::<u8>::new()));
+    let eb = errbuf.clone();
+    let t_err = std::thread::spawn(move || {
+        let mut b = [0u8; 4096];
+        while let Ok(n) = se.read(&mut b) {
+            if n == 0 {
+                break;
+            }
+            eb.lock().unwrap().extend_from_slice(&b[..n]);
+        }
+    });
+    let t_out = std::thread::spawn(move || {
+        let mut v = Vec::new();
+        let _ = so.read_to_end(&mut v);
+        v
+    });
+    let data = input.to_vec();
+    let (txc, rxc) = std::sync::mpsc::channel::<()>();
+    let t_in = std::thread::spawn(move || {
+        let _ = stdin.write_all(&data);
+        let _ = stdin.flush();
+        let _ = rxc.recv_timeout(Duration::from_secs(20)); // keep the pipe open until told to close it
+        drop(stdin);
+    });
+    let t0 = Instant::now();
+    match stop_marker {
+        Some(m) => {
+            while t0.elapsed() < Duration::from_secs(8) {
+                if String::from_utf8_lossy(&errbuf.lock().unwrap()).contains(m) {
+                    break;
+                }
+                std::thread::sleep(Duration::from_millis(10));
+            }
+            std::thread::sleep(Duration::from_millis(150));
+        }
+        None => std::thread::sleep(Duration::from_millis(delay_ms)),
+    }
+    for (i, sig) in signals.iter().enumerate() {
+        if i > 0 {
+            std::thread::sleep(Duration::from_millis(150));
+        }
+        unsafe {
+            libc::kill(child.id() as i32, *sig);
+        }
+    }
+    std::thread::sleep(Duration::from_millis(300));
+    let _ = txc.send(());
+    let mut timed_out = false;
+    let st = loop {
+        match child.try_wait() {
+            Ok(Some(st)) => break Some(st),
+            Ok(None) if t0.elapsed() > Duration::from_secs(25) => {
+                timed_out = true;
+                let _ = child.kill();
+                break child.wait().ok();
+            }
+            Ok(None) => std::thread::sleep(Duration::from_millis(10)),
+            Err(_) => break None,
+        }
+    };
+    let _ = t_in.join();
+    let _ = t_err.join();
+    let stdout = t_out.join().unwrap_or_default();
+    let stderr = String::from_utf8_lossy(&errbuf.lock().unwrap()).into_owned();
+    SigOutcome { status: st.and_then(|s| s.code()), killed_by: if timed_out { None } else { st.and_then(|s| s.signal()) }, timed_out, stderr, stdout: String::from_utf8_lossy(&stdout).into_owned() }
+}
+
+/// {no earlier stop, error cap reached, fatal framing error} x {SIGINT, SIGTERM, SIGHUP} x {one, two signals} with
+/// the input pipe held open, plus one signal at a menu of delays on a long input. One signal must always lead to
+/// the orderly end (no forced exit, no panic, bounded time); a second one may force the exit.
+fn real_signals(rep: &mut Reporter) -> serde_json::Value {
+    // more than two reader batches (100 packets each): the first batches are analysed while the pipe stays open
+    let (_, clean) = streams::multi_link(2, 70, 0, false, false);
+    let (_, faulty) = streams::multi_link(2, 70, 0, true, false);
+    let mut fatal = clean.clone();
+    {
+        // the third RDH gets an offset to the next RDH of 16: a fatal framing error in mid-stream
+        let o1 = u16::from_le_bytes([clean[8], clean[9]]) as usize;
+        let o2 = o1 + u16::from_le_bytes([clean[o1 + 8], clean[o1 + 9]]) as usize;
+        fatal[o2 + 8] = 16;
+        fatal[o2 + 9] = 0;
+    }
+    let s = |a: &[&str]| a.iter().map(|x| x.to_string()).collect::<Vec<_>>();
+    struct SCase {
+        label: String,
+        args: Vec<String>,
+        input: Vec<u8>,
+        marker: Option<&'static str>,
+        delay: u64,
+        signals: Vec<i32>,
+    }
+    let mut cases: Vec<SCase> = Vec::new();
+    for (sname, sig) in [("SIGINT", libc::SIGINT), ("SIGTERM", libc::SIGTERM), ("SIGHUP", libc::SIGHUP)] {
+        for n in [1usize, 2] {
+            cases.push(SCase { label: format!("no earlier stop, {n} x {sname}"), args: s(&["check", "all", "its"]), input: clean.clone(), marker: None, delay: 700, signals: vec![sig; n] });
+            cases.push(SCase { label: format!("error cap reached, then {n} x {sname}"), args: s(&["check", "sanity", "-e", "1"]), input: faulty.clone(), marker: None, delay: 700, signals: vec![sig; n] });
+            cases.push(SCase { label: format!("fatal framing error, then {n} x {sname}"), args: s(&["check", "all", "its"]), input: fatal.clone(), marker: None, delay: 700, signals: vec![sig; n] });
+        }
+        for d in [0u64, 2, 5, 20] {
+            cases.push(SCase { label: format!("{sname} {d} ms after start, view rdh"), args: s(&["view", "rdh"]), input: clean.clone(), marker: None, delay: d, signals: vec![sig] });
+        }
+    }
+    let res = par_map(&cases, |_, c| signal_run(&c.args, &c.input, c.marker, c.delay, &c.signals));
+    let mut forced = 0u64;
+    let mut before_handler = 0u64;
+    for (c, o) in cases.iter().zip(res.iter()) {
+        let class = c.label.split(',').next().unwrap_or("").replace(' ', "-");
+        let mut bad: Option<(&str, String)> = None;
+        if o.timed_out {
+            bad = Some(("timeout", "no exit within 25 s (stdin was closed 300 ms after the last signal)".into()));
+        } else if o.stderr.contains("panicked at") {
+            bad = Some(("panic", o.stderr.lines().find(|l| l.contains("panicked at")).unwrap_or("").to_string()));
+        } else if let Some(k) = o.killed_by.filter(|k| !c.signals.contains(k)) {
+            // dying of the very signal sent means it arrived before the handler was installed (no thread, no output
+            // yet): the default action is an orderly end; any other fatal signal (SIGABRT, SIGSEGV, ...) is not
+            bad = Some(("killed", format!("terminated by signal {k}")));
+        } else if c.signals.len() == 1 && o.stderr.contains("ungraceful") {
+            bad = Some(("forced-exit-after-one-signal", format!("a single stop signal forced the exit (status {:?}): worker threads not joined, no orderly end", o.status)));
+        }
+        if c.signals.len() == 2 && o.stderr.contains("ungraceful") {
+            forced += 1;
+        }
+        if o.killed_by.map_or(false, |k| c.signals.contains(&k)) {
+            before_handler += 1;
+        }
+        let _ = &o.stdout;
+        if let Some((kind, d)) = bad {
+            rep.violation(Violation { signature: format!("signal:{kind}:{class}"), description: format!("{d} [{} | `{}`]", c.label, c.args.join(" ")), replay: json!({"args": c.args, "signals": c.signals, "label": c.label}) });
+        }
+    }
+    json!({"cases": cases.len(), "two_signal_cases_with_forced_exit": forced, "signal_arrived_before_the_handler_was_installed": before_handler})
 }
 
 pub fn run(tier: Tier, _replay: Option<String>) -> i32 {
@@ -246,7 +409,7 @@ pub fn run(tier: Tier, _replay: Option<String>) -> i32 {
             let (_, clean1) = streams::multi_link(2, 1, 0, false, false); // 2 links x (page + stop) = 4 packets
             let scn = Scn { mode: Mode::AllIts, mute: false, max_errors: 0, signal: true, cap: 1, input: Arc::new(clean1), scratch: scratch(), toml: false };
             let cfg = scenario::config(&scn);
-            let basep = Policy { prefix: vec![], max_steps: 30_000, yield_on_unbounded_send: false, cap_override: Some(cap) };
+            let basep = Policy { prefix: vec![], max_steps: 30_000, yield_on_unbounded_send: false, cap_override: Some(cap), descending: false };
             let mut covered_edges: std::collections::HashSet<(i64, String, i64)> = Default::default();
             let mut covered_states: std::collections::HashSet<i64> = Default::default();
             let mut failures: Vec<(Vec<usize>, String)> = Vec::new();
@@ -327,6 +490,9 @@ pub fn run(tier: Tier, _replay: Option<String>) -> i32 {
         }
         closure_json.push(json!({"output": label, "output_bytes": len, "closures": len + 1, "abnormal": bad}));
     }
+    // ---- 5. real OS signals on the real binary
+    let sig_json = real_signals(&mut rep);
+    rep.cov("real_signal_cases", sig_json);
     rep.cov("states", json!(tot.states.len()));
     rep.cov("transitions", json!(tot.steps));
     rep.cov("traces_validated_against_impl", json!(tot.executions + closure_total));
@@ -340,7 +506,7 @@ pub fn run(tier: Tier, _replay: Option<String>) -> i32 {
     rep.cov("channel_conformance_sequences", json!(nseq));
     rep.cov("channel_conformance_depth", json!(depth));
     rep.sample(json!({"schedule": [0, 0, 0, 3], "meaning": "default choices, then the 4th enabled thread (e.g. Signal) at the 4th scheduling point"}));
-    rep.assume("OS signal delivery and the ctrlc crate's thread are outside the scheduler: the handler body (store true into the stop flag) is modelled as an event placed at scheduling points");
+    rep.assume("OS signal delivery and the ctrlc crate's thread are outside the scheduler: the handler body (store true into the stop flag) is modelled as an event placed at scheduling points; the real handler is exercised by an enumerated menu of real signals on the real binary (earlier stop cause x signal kind x one/two signals x delays), which is a menu, not all instants");
     rep.assume("real-time bounds are replaced by a step horizon (sched) and a 10 s wall-clock cap (CLI)");
     let code = rep.finish_with(|line| say!("{line}"));
     let _ = std::fs::remove_dir_all(scratch());
